@@ -48,6 +48,10 @@ PROPS = {
                 outside=["logs longer than the slot bound (the step argument is per operation)"], assumptions=COMMON_ASSUME + ["block time is non-decreasing and not before stored proposal times"]),
     "C12": dict(runs=[oph("^Harness_C12_L1_")],
                 bounds=["every one of the 8 permissioned L1 messages, all fields symbolic, arbitrary pre-state"], outside=[], assumptions=COMMON_ASSUME),
+    "C13": dict(runs=[opc("^Harness_C13_")],
+                bounds=["closed-world Validators / ValidatorsByConsAddr / LastValidatorPowers: at most 2 (quick) / 3 (thorough) entries in the pre-state", "one EndBlock (or one add/remove/param message) from an arbitrary mid-block state satisfying the index invariant"],
+                outside=["more validators than the slot bound", "CometBFT's rule against emptying the validator set (not named by the property)"],
+                assumptions=COMMON_ASSUME + ["consensus address is an injective function of the public key (idealised hash)"]),
     "C17": dict(runs=[dict(pkg="./x/ophost/types", overlay="harness/C17", pkgname="types", harness="^Harness_C17_", native=["rt.go.tmpl", "types_native.go.tmpl"])],
                 bounds=["proof depth 0..2 (quick) / 0..4 (thorough)", "three memory layouts of the proof list", "all 64-bit field values, opaque strings of any length"],
                 outside=["proofs deeper than 4"], assumptions=["sha3 is an uninterpreted function: equality of digests is decided by equality of preimage bytes", "address.Module is an uninterpreted injective function"]),
